@@ -266,6 +266,10 @@ class FreqSplit(Unit):
             pieces = [sig[tsl, edges[0]:edges[1] + 1]] + pieces[1:]
         elif self.mode == "order":
             pieces = pieces[::-1]
+        elif self.mode == "inner-dup":      # end pieces right, an inner piece replaced by a copy of its neighbour (total span unchanged)
+            pieces = [pieces[0], pieces[0]] + pieces[2:]
+        elif self.mode == "inner-swap":     # two inner pieces exchanged (first and last labels and the channel count unchanged)
+            pieces = [pieces[0], pieces[2], pieces[1]] + pieces[3:]
         return pb.concatenate(pieces, axis=self.axis)
 
     def spec(self, S, a, out):
@@ -334,4 +338,7 @@ def units(tier):
                 us.append(FreqSplit(cn, nchan, (1, 2), "top", next(rates), mode="gap"))
                 us.append(FreqSplit(cn, nchan, (1,), "center", next(rates), mode="overlap"))
                 us.append(FreqSplit(cn, nchan, (2,), "bottom", next(rates), mode="order"))
+                us.append(FreqSplit(cn, nchan, (1, 2), "center", next(rates), mode="inner-dup", axis=("freq", 1)[nchan % 2]))
+            if nchan >= 4:
+                us.append(FreqSplit(cn, nchan, (1, 2, 3), "top", next(rates), mode="inner-swap"))
     return us
